@@ -59,16 +59,26 @@ Open(e, c, k, apikind, usemode) ==
           ELSE IF e.body.intact THEN e.body.m
           ELSE IF e.alg = "gcm" THEN Err ELSE "unspecified"     \* DES-CBC carries no integrity
 
+OtherHolder(h) == CHOOSE x \in Holders : x # h
 Signed(kind, attrs, detached, signer) ==
   [t |-> "signed", kind |-> kind, attrs |-> attrs, detached |-> detached,
    content |-> "content", digestattr |-> "H(content)", otherattr |-> "time", cert |-> signer,
-   sig |-> Sig(signer, IF attrs THEN <<"H(content)", "time">> ELSE <<"content">>)]
+   sig |-> Sig(signer, IF attrs THEN <<"H(content)", "time">> ELSE <<"content">>),
+   \* a second signer (another holder) of the same content: "none", or with / without signed attributes of its own
+   second |-> "none", sig2 |-> Sig(signer, <<"none">>)]
+WithSecond(s, second) ==
+  [s EXCEPT !.second = second,
+            !.sig2 = Sig(OtherHolder(s.cert), IF second = "attrs" THEN <<"H(content)", "time2">> ELSE <<"content">>)]
 
 \* Verify as the statement defines it; supplied = the content the verifier holds (detached) or the embedded one
+\* (every signer is checked against what IT signed: its own attributes if it has any, otherwise the content)
 Verify(s, supplied) ==
-  IF s.attrs
-    THEN s.digestattr = "H(" \o supplied \o ")" /\ SigOK(s.sig, s.cert, <<s.digestattr, s.otherattr>>)
-    ELSE SigOK(s.sig, s.cert, <<supplied>>)
+  /\ IF s.attrs
+       THEN s.digestattr = "H(" \o supplied \o ")" /\ SigOK(s.sig, s.cert, <<s.digestattr, s.otherattr>>)
+       ELSE SigOK(s.sig, s.cert, <<supplied>>)
+  /\ CASE s.second = "none" -> TRUE
+        [] s.second = "attrs" -> s.digestattr = "H(" \o supplied \o ")" /\ SigOK(s.sig2, OtherHolder(s.cert), <<s.digestattr, "time2">>)
+        [] s.second = "noattrs" -> SigOK(s.sig2, OtherHolder(s.cert), <<supplied>>)
 
 Bundle(pw, keykind, ncas) ==
   [t |-> "p12", key |-> "key", certs |-> ncas + 1, keykind |-> keykind, mac |-> Mac(pw, <<"key", ncas + 1>>), pw |-> pw]
@@ -76,21 +86,21 @@ Decode(b, pw) == IF b.mac.pw = pw /\ b.mac.over = <<b.key, b.certs>> /\ b.pw = p
 
 \* ---- the adversary: one change of one semantic field ----
 EnvTampers == {"none", "body", "wrapped_key", "drop_recipient", "reorder"}
-SigTampers == {"none", "content", "digest_attr", "other_attr", "signature", "resign_other_key", "swap_cert"}
+SigTampers == {"none", "content", "digest_attr", "other_attr", "signature", "resign_other_key", "swap_cert", "second_over_attrs"}
 P12Tampers == {"none", "byte", "strip_mac"}      \* strip_mac: the MAC is removed; what it protected can then be changed at will
 
 VARIABLES obj, make, tamper, use, result, pc
 vars == <<obj, make, tamper, use, result, pc>>
 
-OtherHolder(h) == CHOOSE x \in Holders : x # h
 
 MakeEnv == \E kind \in Kinds, alg \in Algs, mode \in Modes, r \in Recips, n \in Lens :
              /\ (kind = "rsa" => mode = 0)
              /\ obj' = Envelope(kind, alg, mode, r)
              /\ make' = [what |-> "env", kind |-> kind, alg |-> alg, mode |-> mode, recips |-> r, len |-> n]
-MakeSigned == \E kind \in Kinds, attrs \in BOOLEAN, det \in BOOLEAN, s \in Holders, n \in Lens :
-             /\ obj' = Signed(kind, attrs, det, s)
-             /\ make' = [what |-> "signed", kind |-> kind, attrs |-> attrs, detached |-> det, signer |-> s, len |-> n]
+MakeSigned == \E kind \in Kinds, attrs \in BOOLEAN, det \in BOOLEAN, s \in Holders, n \in Lens, second \in {"none", "attrs", "noattrs"} :
+             /\ (second # "none" => ~det /\ n = TamperLen)      \* two signers: attached, one length
+             /\ obj' = WithSecond(Signed(kind, attrs, det, s), second)
+             /\ make' = [what |-> "signed", kind |-> kind, attrs |-> attrs, detached |-> det, signer |-> s, len |-> n, second |-> second]
 MakeP12 == \E pw \in Passwords, kk \in Kinds, ncas \in 0..2 :
              /\ obj' = Bundle(pw, kk, ncas)
              /\ make' = [what |-> "p12", pw |-> pw, keykind |-> kk, ncas |-> ncas]
@@ -113,6 +123,8 @@ TamperSig(t) ==
     [] t = "resign_other_key" -> [obj EXCEPT !.sig = Sig(OtherHolder(obj.cert), obj.sig.over)]
     \* ... or puts another holder's certificate under the signer's name
     [] t = "swap_cert" -> [obj EXCEPT !.cert = OtherHolder(obj.cert)]
+    \* the second signer (one without attributes of its own) signed the FIRST signer's attributes instead of the content
+    [] t = "second_over_attrs" -> [obj EXCEPT !.sig2 = Sig(OtherHolder(obj.cert), <<obj.digestattr, obj.otherattr>>)]
 TamperP12(t) == CASE t = "none" -> obj
                   [] t = "byte" -> [obj EXCEPT !.mac.over = <<"other bytes">>]
                   [] t = "strip_mac" -> [obj EXCEPT !.mac.pw = "no mac"]
@@ -122,6 +134,7 @@ Tamper == /\ pc = "tamper"
                /\ tamper' = t
                /\ (t \in {"digest_attr", "other_attr"} => obj.attrs)       \* there are no attributes to change otherwise
                /\ (t = "content" => ~obj.detached)                        \* a detached object carries no content
+               /\ (t = "second_over_attrs" => obj.attrs /\ obj.second = "noattrs")
                /\ (t # "none" /\ "len" \in DOMAIN make) => make.len = TamperLen
                /\ obj' = (CASE obj.t = "env" -> TamperEnv(t) [] obj.t = "signed" -> TamperSig(t) [] obj.t = "p12" -> TamperP12(t))
           /\ pc' = "use" /\ UNCHANGED <<make, use, result>>
